@@ -129,6 +129,20 @@ class RealWorld:
         enc0 = desc.get("enc0")
         late = int(desc.get("late") or 0)
         self.agent_list = [make_agent(i, dict(a, enc=enc0[i]) if enc0 else a) for i, a in enumerate(desc["agents"])]
+        if desc.get("shared_aspace"):
+            # (round 6) agents of one kind built with ONE action-space container (`spaces = {}` handed to each of them):
+            # legal, and every component writes the same channel space for each of them; a component that reads an
+            # agent's channel after it has processed another agent of the group reads what it wrote itself
+            import json as _json
+            groups = {}
+            for a, spec in zip(self.agent_list, desc["agents"]):
+                if hasattr(a, "action_space") and isinstance(a.action_space, dict):
+                    key = type(a).__name__ + _json.dumps(
+                        {k: v for k, v in spec.items() if k not in ("init_pos", "init_health", "init_ammo", "init_orient")},
+                        sort_keys=True, default=str)
+                    first = groups.setdefault(key, a)
+                    if first is not a:
+                        a.action_space = first.action_space
         self.agents = {a.id: a for a in self.agent_list[:len(self.agent_list) - late]}
         self.idx = {a.id: i for i, a in enumerate(self.agent_list)}
         self.grid.reset()
